@@ -1,6 +1,6 @@
 (* Character classes of strings, and what kojen's case helpers / counters do to them. *)
 From Coq Require Import String Ascii List Bool Arith Lia.
-From KV Require Import Lib.Str Lib.StrOps Model.Engine Spec.RefExpand Proofs.StrProofs.
+From KV Require Import Lib.Str Lib.StrOps Model.Engine Model.EngineDomain Spec.RefExpand Proofs.StrProofs.
 Import ListNotations.
 Open Scope string_scope.
 
@@ -131,3 +131,15 @@ Lemma digit_alnum c : is_digit c = true -> alnumc c = true.
 Proof. unfold alnumc. intros H. rewrite H. apply orb_true_r. Qed.
 Lemma alnum_ident c : alnumc c = true -> identc c = true.
 Proof. unfold identc. intros H. rewrite H. reflexivity. Qed.
+
+Lemma dec_ident i : allc identc (dec i) = true.
+Proof. apply (allc_impl is_digit); [intros c H; apply alnum_ident, digit_alnum; exact H|apply allc_dec]. Qed.
+
+Lemma ident_no_lg s : allc identc s = true -> no_lg s = true.
+Proof.
+  induction s as [|c s IH]; [reflexivity|]. cbn [allc no_lg]. intros H. apply andb_prop in H as [Hc Hs]. rewrite (IH Hs), andb_true_r.
+  apply negb_true_iff. unfold is_lg. destruct (Ascii.eqb c LT) eqn:E1; [apply Ascii.eqb_eq in E1; subst c; discriminate|].
+  destruct (Ascii.eqb c GT) eqn:E2; [apply Ascii.eqb_eq in E2; subst c; discriminate|]. reflexivity.
+Qed.
+
+
